@@ -38,6 +38,7 @@ class DocGen:
         self.nalias = 0
         self.labels = 0
         self.op = None
+        self.op_dirs = ''
 
     # ---- top level
     def gen(self, op=None):
@@ -56,7 +57,7 @@ class DocGen:
         if self.vars:
             vdefs = '(' + ', '.join(f'${n}: {t}{d}' for n, (t, d, _) in self.vars.items()) + ')'
         frs = '\n'.join(f'fragment {n} on {t} {b}' for n, (t, b) in self.frags.items())
-        return f'{self.op} Q{vdefs} {body}\n{frs}'
+        return f'{self.op} Q{vdefs}{self.op_dirs} {body}\n{frs}'
 
     def variables(self):
         return {n: val for n, (_, _, (provide, val)) in self.vars.items() if provide}
